@@ -18,7 +18,7 @@ ID = "C13"
 LEVEL = "exploration"
 EXHAUSTIVE = True
 KINDS = ("numpy", "bytearray")
-GROUPS = ("from_buffer", "from_native", "copy_to_native", "extract", "views", "from_nplike", "xbuffer_scalar", "grow_storage")
+GROUPS = ("from_buffer", "from_native", "copy_to_native", "extract", "views", "from_nplike", "xbuffer_scalar", "grow_storage", "large_transfers")
 CAPMAX_Q, CAPMAX_T = 12, 20
 N_QUICK = len(KINDS) * (CAPMAX_Q + 1) * len(GROUPS)
 N_THOROUGH = len(KINDS) * (CAPMAX_T + 1) * len(GROUPS)
@@ -26,7 +26,8 @@ T_QUICK, T_THOROUGH = 70, 900
 SHARDS = 16
 DTYPES = ["int8", "uint8", "int16", "uint16", "int32", "uint32", "int64", "uint64", "float32", "float64"]
 SCALARS = [xo.Int8, xo.UInt8, xo.Int16, xo.UInt16, xo.Int32, xo.UInt32, xo.Int64, xo.UInt64, xo.Float32, xo.Float64]
-FLOORS = {"primitive_calls": 30000, "grow_relocations": 3000}
+FLOORS = {"primitive_calls": 30000, "grow_relocations": 3000, "large_transfers": 60, "views_after_growth": 1500,
+          "nplike_swapped_sources": 2000}
 for _k in KINDS:
     for _p in ("update_from_buffer.post_exact", "update_from_native.post_exact", "update_from_nplike.post_exact",
                "copy_to_native.post_exact", "to_bytearray.post_exact", "to_nplike.post_exact"):
@@ -197,7 +198,10 @@ def g_from_nplike(w, kind, cap):
         for off in range(cap + 1):
             for cnt in range((cap - off) // d.itemsize + 1):
                 base = [(i * 3 + off + 1) % 100 for i in range(cnt)]
-                for sdt in (dt, "int8" if dt != "int8" else "int16", "float64" if dt != "float64" else "int32"):
+                srcs = [dt, "int8" if dt != "int8" else "int16", "float64" if dt != "float64" else "int32"]
+                if d.itemsize > 1:
+                    srcs.append(d.newbyteorder().str)  # same values, non-native byte order
+                for sdt in srcs:
                     for name, val in layouts(base, sdt):
                         if name == "list" and sdt != dt:
                             continue
@@ -212,6 +216,8 @@ def g_from_nplike(w, kind, cap):
                             continue
                         w.count("primitive_calls")
                         w.count("nplike_layout:" + name)
+                        if np.dtype(sdt).byteorder not in ("=", "|", "<" if np.little_endian else ">"):
+                            w.count("nplike_swapped_sources")
                         if isinstance(val, np.ndarray):
                             expect(w, val.tolist() == np.array(base, dtype=sdt).reshape(val.shape).tolist(),
                                    "update_from_nplike-changes-source", "source array modified", case)
@@ -289,6 +295,8 @@ def g_grow_storage(w, kind, cap):
                     else:
                         live.append((o, sz))
                 before = bufmon.raw_bytes(b)
+                for o, sz in live[:1]:
+                    b.to_nplike(o, np.dtype("int8"), (sz,))  # the view exists before the storage is replaced
                 if how == "alloc":
                     b.allocate(cap + 1, align=False)
                 else:
@@ -299,6 +307,20 @@ def g_grow_storage(w, kind, cap):
                 case = dict(kind=kind, cap=cap, regions=list(zip(offs, sizes)), freed_mask=mask, how=how)
                 expect(w, len(after) == b.capacity and b.capacity >= cap, "grow-storage-size-differs-from-capacity",
                        f"len(storage)={len(after)} capacity={b.capacity}", case)
+                if live:
+                    # a typed view requested AFTER the growth aliases the current storage (also when the same view
+                    # had been requested before)
+                    o, sz = live[0]
+                    v1 = b.to_nplike(o, np.dtype("int8"), (sz,))
+                    fresh = bytes(((i * 7 + 91) & 0x7F) for i in range(sz))
+                    b.update_from_buffer(o, fresh)
+                    w.count("views_after_growth")
+                    expect(w, v1.tobytes() == fresh, "view-after-growth-does-not-alias", "typed view requested after "
+                           f"{how} does not show a later write to [{o},{o + sz})", case)
+                    v1[...] = np.frombuffer(before[o:o + sz], dtype=np.int8)
+                    after = bufmon.raw_bytes(b)
+                    expect(w, after[o:o + sz] == before[o:o + sz], "view-after-growth-does-not-alias",
+                           f"store through a typed view requested after {how} did not reach the buffer", case)
                 for o, sz in live:
                     if after[o:o + sz] != before[o:o + sz]:
                         expect(w, False, "grow-lost-live-bytes", f"live region [{o},{o + sz}) changed by {how}", case)
@@ -308,6 +330,39 @@ def g_grow_storage(w, kind, cap):
 
 
 G["grow_storage"] = g_grow_storage
+
+
+def g_large_transfers(w, kind, cap):
+    """Transfers far above any staging block size, between buffers of the same and of different contexts, with
+    unequal source and destination offsets (run once per buffer kind, at the largest capacity of the scope)."""
+    if cap != (CAPMAX_T if w.tier == "thorough" else CAPMAX_Q):
+        return
+    c0, c1 = ctxs()
+    for n in (65536 + 8, 65537, (1 << 20) + 4096, (2 << 20) + 1, 3 << 20):
+        for off, so in ((0, 0), (8, 24), (13, 5)):
+            for sctx in (c0, c1):
+                for skind in ((kind,) if sctx is c0 else KINDS):
+                    b = bufmon.KINDS[kind](capacity=n + 64, context=c0)
+                    s_ = bufmon.KINDS[skind](capacity=n + 64, context=sctx)
+                    pat = (np.arange(n + 64, dtype=np.int64) * 2654435761 >> 7).astype(np.uint8).tobytes()
+                    bufmon.poke(s_, 0, pat)
+                    before = bufmon.raw_bytes(b)
+                    b.update_from_xbuffer(off, s_, so, n)
+                    after = bufmon.raw_bytes(b)
+                    w.count("primitive_calls")
+                    w.count("large_transfers")
+                    case = dict(kind=kind, skind=skind, same_ctx=sctx is c0, n=n, off=off, so=so)
+                    expect(w, after == before[:off] + pat[so:so + n] + before[off + n:] and bufmon.raw_bytes(s_) == pat,
+                           "large-update_from_xbuffer-wrong-bytes", "wrong bytes transferred", case)
+                    # into fresh native storage and back (the path growth takes)
+                    dest = b._new_buffer(n + 16)
+                    b.copy_to_native(dest, 16, off, n)
+                    expect(w, bufmon._src_bytes(dest)[16:16 + n] == after[off:off + n], "large-copy_to_native-wrong-bytes",
+                           "wrong bytes copied to native storage", case)
+                    w.count("primitive_calls")
+
+
+G["large_transfers"] = g_large_transfers
 
 
 def run_case(w, rng):
